@@ -627,6 +627,40 @@ def replay_known(res, ctx):
     return listed
 
 
+def replay(res, ctx, path):
+    """re-run one recorded failing input on the current tree"""
+    rep = json.load(open(path))
+    inp = rep.get("input") or {}
+    ctx.update(stats=collections.Counter(), seen=set(), samples=[], diffs=[], written=[], class_hits={})
+    r2 = common.Result("C11", ctx["tier"], ctx["seed"])
+    if "txs" in inp:
+        txs = [cc.tx_from_json(t) for t in inp["txs"]]
+        check_roundtrip(r2, ctx, [txs], "replay")
+        fails = [v[0]["what"] for v in r2.violations]
+        if ctx["class_hits"] and (rep.get("class") or rep.get("what", "").startswith("memo witness")):
+            fails.append("writing the re-read list gives different bytes (class %s)" % ", ".join(ctx["class_hits"]))
+        elif ctx["class_hits"]:
+            print("replay: note: second-generation bytes differ, input is in known class %s" % ", ".join(ctx["class_hits"]))
+    elif "names" in inp:
+        check_aff_seq(r2, ctx, random.Random(0), 0)
+        fails = [v[0]["what"] for v in r2.violations]
+    elif "d" in inp:
+        out = run_harness(ctx["exe"], "dec_show", [{"d": inp["d"], "p": -1, "k": inp["k"]}], nproc=1)[0]
+        from fractions import Fraction
+        fails = [] if Fraction(out.get("tsmp", "nan") if out.get("tsmp") else 0) == cc.dval(cc.jd(inp["d"])) else ["to_string_min_precision changes the value: %s" % out]
+    else:
+        print("replay: this replay file names no input (%s)" % rep.get("what", "")[:200])
+        return 1
+    if fails:
+        print("replay: FAILS: " + fails[0][:600])
+        return 1
+    if ctx["diffs"]:
+        print("replay: the property holds on this input, but model and implementation differ: " + ctx["diffs"][0][0][:400])
+        return 1
+    print("replay: the property holds on this input")
+    return 0
+
+
 def run(res, ctx):
     tier, seed = ctx["tier"], ctx["seed"]
     rng = random.Random(seed * 104729 + 11)
@@ -634,7 +668,7 @@ def run(res, ctx):
     st = ctx["stats"]
     listed = replay_known(res, ctx)
     check_roundtrip(res, ctx, corpus(), "corpus")
-    n = 1500 if tier == "quick" else 40000
+    n = 6000 if tier == "quick" else 60000
     done = 0
     while done < n:
         k = min(1000, n - done)
@@ -646,8 +680,8 @@ def run(res, ctx):
     for o in run_harness(ctx["exe"], "roundtrip", [{"txs": [cc.j_tx(t) for t in c]} for c in sample]):
         if "header" in o:
             ctx["written"].append((o["header"], o["rows"]))
-    check_dec_show(res, ctx, rng, 3000 if tier == "quick" else 60000)
-    check_field_parse(res, ctx, rng, 2000 if tier == "quick" else 40000)
+    check_dec_show(res, ctx, rng, 6000 if tier == "quick" else 60000)
+    check_field_parse(res, ctx, rng, 4000 if tier == "quick" else 40000)
     check_aff_seq(res, ctx, rng, 600 if tier == "quick" else 10000)
     check_read(res, ctx, rng, 150 if tier == "quick" else 2000)
     # a second-generation difference outside the listed class is reported by the oracle above; inside the
